@@ -40,7 +40,7 @@ ASSUMPTIONS["C02"] = ["pointer is 8-aligned and (when non-null) backed by max(to
 # ------------------------------------------------------------------ C03 ----
 PLANS["C03"] = dict(
     quick=[run("dev"), run("rel"), run("asan", procs=4), run("miri", procs=16, density=24, max_cases=60, timeout_s=900)],
-    thorough=[run("dev"), run("rel"), run("asan", procs=8), run("miri", procs=16, density=40, timeout_s=3000), run("miri-rel", procs=16, density=80, timeout_s=3000)],
+    thorough=[run("dev"), run("rel"), run("asan", procs=8), run("miri", procs=16, density=40, budget_s=700, timeout_s=3000), run("miri-rel", procs=16, density=80, budget_s=700, timeout_s=3000)],
     exhaustive=dict(quick=True, thorough=True),
     exhaustive_domain=dict(
         quick="native: the complete tree of declared-size sequences (every size 0..=remaining+9 at every walk position) over areas of 8..=48 bytes, directly through TagIter and through load()+tags(); plus 20000 random longer walks. Miri/ASan: slices of the same case space",
@@ -194,8 +194,8 @@ PLANS["C01"] = dict(
     quick=[run("dev", procs=8, max_cases=120000, budget_s=35), run("rel", procs=8, max_cases=400000, budget_s=35), run("asan", procs=8, max_cases=150000, budget_s=35, timeout_s=900),
            run("miri", procs=16, density=4096, budget_s=55, timeout_s=900), run("miri-rel", procs=8, density=8192, budget_s=45, timeout_s=900),
            run("dev", driver="C01vbe", procs=1, timeout_s=120), run("rel", driver="C01vbe", procs=1, timeout_s=120), run("fuzz", modes="0,3", secs=30)],
-    thorough=[run("dev", max_cases=1500000, budget_s=600, timeout_s=3000), run("rel", max_cases=6000000, budget_s=600, timeout_s=3000), run("asan", max_cases=2000000, budget_s=600, timeout_s=3000),
-              run("miri", procs=16, density=4096, budget_s=900, timeout_s=3000), run("miri-rel", procs=16, density=4096, budget_s=900, timeout_s=3000),
+    thorough=[run("dev", max_cases=1500000, budget_s=300, timeout_s=3000), run("rel", max_cases=6000000, budget_s=300, timeout_s=3000), run("asan", max_cases=2000000, budget_s=300, timeout_s=3000),
+              run("miri", procs=16, density=4096, budget_s=700, timeout_s=3000), run("miri-rel", procs=16, density=4096, budget_s=700, timeout_s=3000),
               run("dev", driver="C01vbe", procs=1, timeout_s=120), run("rel", driver="C01vbe", procs=1, timeout_s=120), run("miri", driver="C01vbe", procs=1, timeout_s=300),
               run("fuzz", modes="0,3", secs=300)],
 )
@@ -213,8 +213,8 @@ LEVEL_NOTES["C01"] = "trusted base: Miri (UB interpreter), the MMU (guard pages)
 PLANS["C09"] = dict(
     quick=[run("dev", procs=8, max_cases=150000, budget_s=30), run("rel", procs=8, max_cases=400000, budget_s=30), run("asan", procs=8, max_cases=150000, budget_s=30, timeout_s=900),
            run("miri", procs=16, density=4096, budget_s=50, timeout_s=900), run("fuzz", modes="1", secs=30)],
-    thorough=[run("dev", max_cases=1500000, budget_s=500, timeout_s=3000), run("rel", max_cases=6000000, budget_s=500, timeout_s=3000), run("asan", max_cases=2000000, budget_s=500, timeout_s=3000),
-              run("miri", procs=16, density=4096, budget_s=900, timeout_s=3000), run("miri-rel", procs=16, density=4096, budget_s=900, timeout_s=3000),
+    thorough=[run("dev", max_cases=1500000, budget_s=300, timeout_s=3000), run("rel", max_cases=6000000, budget_s=300, timeout_s=3000), run("asan", max_cases=2000000, budget_s=300, timeout_s=3000),
+              run("miri", procs=16, density=4096, budget_s=700, timeout_s=3000), run("miri-rel", procs=16, density=4096, budget_s=700, timeout_s=3000),
               run("fuzz", modes="1", secs=240)],
 )
 RULES["C09"] = ("cases: conformant header (11 kinds, defined enum values, 0..10 tags + end tag) kept (1/12), payload words randomised (1/12) or hit by 1..2 boundary-value corruptions of the header length / tag sizes (checksum recomputed so it still loads); "
